@@ -2,13 +2,15 @@ module verifharness
 
 go 1.21
 
-require github.com/herohde/morlock v0.0.0
+require (
+	github.com/herohde/morlock v0.0.0
+	github.com/seekerror/stdlib v0.0.0-20231216224128-fab4c1e73ebe
+)
 
 require (
 	github.com/golang/glog v1.2.0 // indirect
 	github.com/seekerror/build v1.0.2 // indirect
 	github.com/seekerror/logw v0.8.1 // indirect
-	github.com/seekerror/stdlib v0.0.0-20231216224128-fab4c1e73ebe // indirect
 	golang.org/x/exp v0.0.0-20231214170342-aacd6d4b4611 // indirect
 )
 
